@@ -52,7 +52,14 @@ function frames (file, content) {
   try {
     for (const mode of ['string', 'structured']) {
       const inner = mode === 'structured'
-        ? (e, cs) => cs.map(c => ({ file: c.getFileName(), line: c.getLineNumber(), column: c.getColumnNumber(), fn: c.getFunctionName() }))
+        ? (e, cs) => cs.map(c => {
+            // a handler may use the whole CallSite API
+            for (const m of ['getThis', 'getTypeName', 'getFunction', 'getMethodName', 'getEvalOrigin', 'isToplevel', 'isEval', 'isNative', 'isConstructor',
+              'isAsync', 'isPromiseAll', 'getPromiseIndex', 'getScriptNameOrSourceURL', 'getScriptHash', 'getEnclosingLineNumber', 'getEnclosingColumnNumber', 'getPosition', 'toString']) {
+              if (typeof Object.getPrototypeOf(cs[0].callSite || cs[0])[m] === 'function' || typeof c[m] === 'function') c[m]()
+            }
+            return { file: c.getFileName(), line: c.getLineNumber(), column: c.getColumnNumber(), fn: c.getFunctionName() }
+          })
         : undefined
       Error.prepareStackTrace = pkg.getPrepareStackTrace(inner)
       let err
